@@ -403,7 +403,7 @@ def check(res, case, rec):
 
 def units(tier, seed):
     us = [('each',)]
-    for i in range(24 if tier == 'quick' else 128):
+    for i in range(24 if tier == 'quick' else 1280):
         us.append(('random', i))
     return us
 
